@@ -260,7 +260,18 @@ static kdump_status
 file_fd_post_hook(kdump_ctx_t *ctx, struct attr_data *attr)
 {
 	int fd = attr_value(attr)->number;
-	return internal_open_fdset(ctx, 1, &fd);
+	kdump_status status;
+
+	status = internal_open_fdset(ctx, 1, &fd);
+
+	/* Clearing the slots of the file set (clear_all_fds) also clears
+	 * this legacy alias of file.set.0.fd, i.e. the attribute that is
+	 * being set. The slot holds the descriptor again (it shares the
+	 * value storage), so the alias has a value, too.
+	 */
+	if (status == KDUMP_OK)
+		attr->flags.isset = 1;
+	return status;
 }
 
 const struct attr_ops file_fd_ops = {
